@@ -14,7 +14,11 @@ KINDS2 = """  change 1 — re-wording only: change the TEXT of error messages, w
   change 2 — another internal representation with the same observable behaviour: e.g. a list kept as a tuple or a deque, a dict as an OrderedDict, a set as a frozenset, a hand-written class turned into a dataclass or given __slots__, a private attribute renamed or split in two, a module-level constant moved into another module and imported back, a private helper moved to another file;
   change 3 — an equivalent algorithm: the same result computed another way (a regular expression replaced by explicit string code or the reverse, index loops versus zip / enumerate, a pandas / numpy vectorised form versus a Python loop, recursion versus iteration, itertools versus hand-written loops) — identical results and identical exceptions for every input, including empty, duplicate, missing and malformed ones.
 """
-KINDS = KINDS2 if rnd else KINDS1
+KINDS3 = """  change 1 — an ORDER that was never promised: process independent items in another order where the property's statement fixes none (iterate a folder listing / a set / the items of a dict of independent things in sorted or reversed order, handle independent files, sheets or columns in another sequence, reorder the entries of an internal lookup table, swap the operands of a commutative test) — the set of results, and every order the statement DOES fix (rows of a file, blocks of a file, columns of a table), stay exactly as they are;
+  change 2 — memoisation, or fewer / more calls: cache the result of a pure helper (correctly keyed), call a user-supplied PURE callable (a filter predicate, a unit converter, a fixer hook's pure part) once where it was called twice or twice where it was called once when nothing promises the count, batch calls (e.g. convert columns that share a unit pair together), validate earlier or later with the same outcome and the same error;
+  change 3 — a compatible EXTENSION of the public surface: accept more than before without changing anything for inputs accepted today (a new optional keyword whose default is today's behaviour, an extra member in a returned dict / JSON-like structure that the property does not enumerate, numpy integers or slices accepted where ints are indexed, pathlib.Path where str was accepted, an out-of-domain crash turned into a clean error of the documented class or a subclass of today's exception class).
+"""
+KINDS = KINDS3 if rnd == "r3" else KINDS2 if rnd else KINDS1
 print(f"""You are helping to evaluate a verification tool for FALSE ALARMS. Work ONLY inside the directory {wt} — a scratch git worktree of the Python library `pdtable` (reader/writer for the StarTable tabular format: CSV, Excel, JSON; tables are pandas DataFrames with units). Do not read or write anything under /verif or /repo; do not use git commit and NEVER use git stash (the stash is shared by all worktrees of the repository: use `git checkout -- pdtable` and `git apply`). Run Python as `cd {wt} && PYTHONPATH={wt} /venv/bin/python ...` so that the worktree's `pdtable` is the one imported.
 
 The library satisfies this property, and it must STILL satisfy it, for every input, after each of your changes:
